@@ -27,12 +27,16 @@ pub enum H {
     Client { t: u64, state: String },
     Connected { t: u64, session: u32 },
     Closed { t: u64, session: u32 },
-    LinkRx { t: u64, ctrl: u8, dest: u16 },
+    LinkRx { t: u64, worder: u64, ctrl: u8, dest: u16 },
+    /// link status reply of outstation `src` (t = time it reaches the master)
+    LinkTx { t: u64, src: u16 },
     GetTime { t: u64, assoc: u16, value: Option<u64> },
     Op { t: u64, index: usize },
     Other { t: u64, assoc: u16, what: String },
     /// the master's transport reader handed this fragment to the application layer (exact processing point)
     MasterRx { t: u64, src: u16, bytes: Vec<u8> },
+    /// the master's transport reader handed a link status request / response from `src` to the application layer
+    MasterLinkRx { t: u64, src: u16, response: bool },
     File { t: u64, id: u64, what: String, block: u32, len: usize, content_ok: bool, detail: String },
 }
 
@@ -55,10 +59,12 @@ impl H {
             | H::Connected { t, .. }
             | H::Closed { t, .. }
             | H::LinkRx { t, .. }
+            | H::LinkTx { t, .. }
             | H::GetTime { t, .. }
             | H::Op { t, .. }
             | H::File { t, .. }
             | H::MasterRx { t, .. }
+            | H::MasterLinkRx { t, .. }
             | H::Other { t, .. } => *t,
         }
     }
@@ -109,7 +115,8 @@ pub fn history(case: &SmastCase, run: &MastRun) -> Vec<(u64, H)> {
                     session: *session,
                 },
             )),
-            PeerEv::LinkRx { t, order, frame } => out.push((*order, H::LinkRx { t: *t, ctrl: frame.ctrl, dest: frame.dest })),
+            PeerEv::LinkRx { t, order, worder, frame } => out.push((*order, H::LinkRx { t: *t, worder: *worder, ctrl: frame.ctrl, dest: frame.dest })),
+            PeerEv::LinkTx { t, order, src } => out.push((*order, H::LinkTx { t: *t + case.latency.1, src: *src })),
             PeerEv::Connected { t, order, session } => out.push((*order, H::Connected { t: *t, session: *session })),
             PeerEv::Closed { t, order, session } => out.push((*order, H::Closed { t: *t, session: *session })),
             PeerEv::Note { .. } => {}
@@ -141,7 +148,12 @@ pub fn history(case: &SmastCase, run: &MastRun) -> Vec<(u64, H)> {
         out.push((*order, h));
     }
     for (t, order, src, bytes) in &run.master_rx {
-        out.push((*order, H::MasterRx { t: *t, src: *src, bytes: bytes.clone() }));
+        if bytes.len() == 2 && bytes[0] == 0xFF {
+            // link-layer message (see hooks::link_message_popped)
+            out.push((*order, H::MasterLinkRx { t: *t, src: *src, response: bytes[1] == 1 }));
+        } else {
+            out.push((*order, H::MasterRx { t: *t, src: *src, bytes: bytes.clone() }));
+        }
     }
     for (i, t, order) in &run.op_marks {
         out.push((*order, H::Op { t: *t, index: *i }));
@@ -170,7 +182,7 @@ pub fn master_time_history(case: &SmastCase, run: &MastRun) -> Vec<(u64, H)> {
     // what the master wrote is placed where it wrote it
     let ord = |e: &(u64, H)| -> u64 {
         match &e.1 {
-            H::Request { worder, .. } | H::Confirm { worder, .. } => *worder,
+            H::Request { worder, .. } | H::Confirm { worder, .. } | H::LinkRx { worder, .. } => *worder,
             _ => e.0,
         }
     };
